@@ -2,11 +2,15 @@
 
 In-process half: the REAL server stack exactly as WorkflowServer assembles it — ServerRuntimeDecorator(
 IdleReleaseDecorator(PersistenceDecorator(BasicRuntime))) over a MemoryWorkflowStore, fronted by the real
-_WorkflowService (start_workflow / send_event) — runs a tiny workflow on MiniLoop (virtual time).  The run goes idle
-waiting for external events; the idle timeout and the instants of the external send_event calls are symbolic.
+_WorkflowService (start_workflow / send_event) — runs small workflows on MiniLoop (virtual time).  The idle timeout, the
+instants of two concurrent external senders, the time a step takes and the tie order of equal instants are symbolic.
 
-DBOS half: the REAL SqliteRunLifecycleLock on a temporary sqlite file, driven by symbolic operation scripts from a
-symbolic row state with a symbolic clock and crash_timeout.
+DBOS half: the REAL SqliteRunLifecycleLock on a temporary sqlite file (tables from the package's migration SQL):
+one operation from every row state against a reference automaton written from the docstrings (inductive step),
+symbolic operation scripts judged by trace properties, and releaser / two resumers as real tasks at symbolic instants
+with an optional releaser crash.  On top of it the REAL DBOSIdleReleaseDecorator stack of two "replicas" sharing the
+lifecycle table and the workflow store (only DBOSRuntime is an environment stub): release on A, optional crash of A,
+two senders on B.
 """
 from __future__ import annotations
 
@@ -14,13 +18,21 @@ import vlib.boot  # noqa: F401
 from vlib.boot import B
 from vlib.ob import obligation
 
-from typing import Any, Dict, List
+import asyncio
+import os
+from typing import Any, Dict, List, Optional
 
 from vlib import h_idle
-from vlib.h_idle import abort_state_is_quiescent, concrete, run_inproc
+from vlib.h_idle import abort_state_is_quiescent, concrete, run_stack
 
 from workflows import Context, Workflow, step
 from workflows.events import HumanResponseEvent, StartEvent, StopEvent
+
+h_idle.install_speedups()
+h_idle.ensure_dbos_importable()
+
+import llama_agents.dbos.idle_release as dbos_ir  # noqa: E402
+import llama_agents.dbos.journal.lifecycle as lc  # noqa: E402
 
 ENCODED = [
     "llama_agents.server._runtime.idle_release_runtime:IdleReleaseDecorator",
@@ -32,106 +44,653 @@ ENCODED = [
     "llama_agents.server._service:_WorkflowService.send_event",
     "llama_agents.server._service:_WorkflowService.start_workflow",
     "llama_agents.server._keyed_lock:KeyedLock",
+    "llama_agents.dbos.journal.lifecycle:SqliteRunLifecycleLock",
+    "llama_agents.dbos.idle_release:DBOSIdleReleaseDecorator",
+    "llama_agents.dbos.idle_release:DBOSIdleReleaseExternalRunAdapter",
+    "llama_agents.dbos.idle_release:_DBOSIdleReleaseInternalRunAdapter",
     "workflows.plugins.basic:BasicRuntime.run_workflow",
     "workflows.plugins.basic:ExternalAsyncioAdapter.abort",
     "workflows.runtime.control_loop:_ControlLoopRunner.run",
+    "workflows.runtime.control_loop:_ControlLoopRunner._process_tick",
     "workflows.runtime.control_loop:_check_idle_state",
 ]
 ASSUMES = [
-    "asyncio scheduling = vlib.miniloop.MiniLoop (FIFO ready queue, virtual clock); every clock read on the path "
-    "(time.monotonic/time.time/datetime.now in basic.py, control_loop.py, idle_release_runtime.py, server_runtime.py, "
-    "the stores) is patched to that virtual clock; run/span ids are fixed strings",
-    "BasicRuntime is the observing subclass of vlib.h_idle (records control-loop tasks per run id and a snapshot at "
-    "abort(): mailbox size, rebuilt broker state, worker tasks in flight, whether the runner's timer heap was "
-    "non-empty); it forwards every call unchanged",
-    "instants are integers (virtual seconds); senders are started in list order, so two sends at the same instant are "
-    "issued in that order",
+    "asyncio scheduling = vlib.miniloop.MiniLoop (FIFO ready queue, virtual clock, equal deadlines fire in registration "
+    "order); every clock read on the path (time.* / datetime.now in basic.py, control_loop.py, step_function.py, "
+    "idle_release_runtime.py, server_runtime.py, _service.py, the stores, dbos/idle_release.py, dbos/journal/lifecycle.py) "
+    "is patched to that virtual clock; run / span ids are fixed strings",
+    "instants are integers (virtual seconds); the symbolic small ints are enumerated by the solver "
+    "(vlib.h_idle.concrete forks on every value of the stated range), so every order of {release timers, senders, step "
+    "completion, resumers} including both tie orders (flag `early`) is explored",
+    "BasicRuntime is the observing subclass of vlib.h_idle (records the control-loop task of every (re)start per run id "
+    "and, at abort(), a snapshot: mailbox size, worker tasks in flight, whether the runner's last wait carried a wake-up "
+    "deadline = its timer heap was non-empty, the broker state rebuilt from the ticks); it forwards every call unchanged",
     "workflow timeout=None (the per-run TickTimeout is re-armed on reload by design and is not 'work')",
+    "'processed' = the step that consumes the event ran with it exactly once and its effect is in the final result",
+    "tooling: logging disabled; under CrossHair repr() of concrete scalars is native, "
+    "workflows.utils.get_steps_from_instance/_class run untraced, CrossHair's contract enforcement and gc-on-weakref are "
+    "off (vlib.h_idle.install_speedups) — no effect on results",
+    "lifecycle lock: single process (the sqlite lock's KeyedLock is process-local by design); a releaser crash = the "
+    "releaser never calls complete_release; the reference automaton is written from the RunLifecycleLock docstrings",
+    "two-replica obligation: DBOSRuntime is replaced by an ENVIRONMENT STUB per replica (BasicRuntime; a finished run's id "
+    "is reusable on restart = DBOS.delete_workflow_async); the name DBOS inside dbos/idle_release.py raises RuntimeError "
+    "(handled by _do_resume's existing try/except); both replicas share one MemoryWorkflowStore (stands for the shared "
+    "database) and one sqlite lifecycle file; the lifecycle row is created through the real lock.create() after start "
+    "(KF-C36-1: production never does); a crash of replica A = its control loop and background tasks are cancelled "
+    "after begin_release",
 ]
 OUTSIDE = [
-    "the DBOS decorator's check-then-send window (DBOSIdleReleaseExternalRunAdapter.send_event vs release on another "
-    "replica): needs DBOSRuntime / dbos, neither importable nor modelled here", "PostgresRunLifecycleLock (asyncpg)",
-    "server restart while idle", "more than two external events / instants beyond the stated ranges",
+    "the DBOS decorator's check-then-send window against the real DBOS engine (DBOS.send to a run that another replica is "
+    "purging / restarting): needs DBOSRuntime / dbos, neither importable nor modelled here",
+    "PostgresRunLifecycleLock (asyncpg); several OS processes on one sqlite file",
+    "a releaser that is merely slower than CRASH_TIMEOUT_SECONDS (not crashed): the crash timeout is a timeout",
+    "server restart while idle; more than two external events; instants beyond the stated ranges",
 ]
 
-TMAXI = B(2, 3)   # idle_timeout range 1..TMAXI
-SMAX = B(4, 6)    # send instants 0..SMAX
+DBOS_RUNTIME_TOUCHES_LIFECYCLE = h_idle.dbos_runtime_touches_lifecycle()
+
+TMAXI = B(2, 3)    # idle_timeout range 1..TMAXI
+SMAX = B(3, 6)     # send instants 0..SMAX
+WMAX = B(1, 2)     # step duration 0..WMAX
 
 
 class ExtEv(HumanResponseEvent):
     n: int
 
 
-def _counter_workflow(need: int) -> Any:
-    def make() -> Workflow:
-        class W(Workflow):
-            @step
-            async def begin(self, ctx: Context, ev: StartEvent) -> None:
-                return None
+class WorkWF(Workflow):
+    """begin returns at once; on_ext (one worker) takes `w` virtual seconds per event and folds the payload into the
+    stored accumulator; the second event completes the run.  Result = order-sensitive fold of both payloads."""
 
-            @step(num_workers=1)
-            async def on_ext(self, ctx: Context, ev: ExtEv) -> StopEvent | None:
-                acc = await ctx.store.get("acc", default=0)
-                cnt = await ctx.store.get("cnt", default=0)
-                await ctx.store.set("acc", acc + ev.n)
-                await ctx.store.set("cnt", cnt + 1)
-                if cnt + 1 >= need:
-                    return StopEvent(result=acc + ev.n)
-                return None
+    def __init__(self, w: int = 0, **kw: Any) -> None:
+        super().__init__(**kw)
+        self.w = w
+        self.calls: List[Any] = []
 
-        return W(timeout=None)
+    @step
+    async def begin(self, ctx: Context, ev: StartEvent) -> None:
+        self.calls.append("begin")
+        return None
 
-    return make
-
-
-def _ext_payloads_in_ticks(ticks: List[Dict[str, Any]]) -> List[int]:
-    out = []
-    for t in ticks:
-        if t.get("type") == "add_event":
-            ev = t.get("event") or {}
-            val = ev.get("value", ev) if isinstance(ev, dict) else {}
-            n = val.get("n") if isinstance(val, dict) else None
-            if n is None and isinstance(val, dict):
-                n = (val.get("value") or {}).get("n") if isinstance(val.get("value"), dict) else None
-            if n is not None:
-                out.append(n)
-    return out
+    @step(num_workers=1)
+    async def on_ext(self, ctx: Context, ev: ExtEv) -> Optional[StopEvent]:
+        self.calls.append(("on_ext", ev.n))
+        acc = await ctx.store.get("acc", default=0)
+        cnt = await ctx.store.get("cnt", default=0)
+        if self.w:
+            await asyncio.sleep(self.w)
+        await ctx.store.set("acc", acc * 100 + ev.n)
+        await ctx.store.set("cnt", cnt + 1)
+        if cnt + 1 >= 2:
+            return StopEvent(result=acc * 100 + ev.n)
+        return None
 
 
-def _safe(o: Dict[str, Any], payloads: List[int]) -> bool:
-    # every sent event was processed by some control loop of the run: it is in the persisted tick log exactly once
-    # and it reached the result (the run completes with the sum of all payloads)
-    seen = sorted(_ext_payloads_in_ticks(o["ticks"]))
-    if seen != sorted(payloads):
-        return False
-    if o["status"] != "completed" or o["result"] != sum(payloads):
-        return False
-    # never two live control loops of the run
+class _DelayPolicy:
+    """user retry policy (environment): first failure -> retry after `delay` seconds, second failure -> give up"""
+
+    delay: float = 0.0
+
+    def next(self, elapsed_time: float, attempts: int, error: Exception) -> Optional[float]:
+        return float(self.delay) if attempts <= 1 else None
+
+
+_POLICY = _DelayPolicy()
+
+
+class TimerWF(Workflow):
+    """work that lives only in the control loop's timer heap: kind 0 = a wait_for_event with a timeout of `x` seconds
+    (when it expires the step goes on working for `z` more seconds), kind 1 = a step that fails once and is retried
+    after `x` seconds (then waits for the external event)."""
+
+    def __init__(self, kind: int = 0, x: int = 0, z: int = 0, **kw: Any) -> None:
+        super().__init__(**kw)
+        self.kind = kind
+        self.x = x
+        self.z = z
+        self.calls: List[Any] = []
+
+    @step(retry_policy=_POLICY)
+    async def begin(self, ctx: Context, ev: StartEvent) -> StopEvent:
+        self.calls.append("begin")
+        if self.kind == 1 and self.calls.count("begin") == 1:
+            raise RuntimeError("first attempt fails")
+        try:
+            a = await ctx.wait_for_event(ExtEv, waiter_id="q", timeout=(self.x if self.kind == 0 else None))
+        except asyncio.TimeoutError:
+            self.calls.append("timeout")
+            if self.z:
+                await asyncio.sleep(self.z)
+            self.calls.append("fallback done")
+            return StopEvent(result=-1)
+        return StopEvent(result=a.n)
+
+
+def _mk_event(n: int) -> ExtEv:
+    return ExtEv(n=n)
+
+
+P1, P2 = 11, 7
+
+
+def _why_inproc(o: Dict[str, Any], sends: List[Any]) -> List[str]:
+    bad: List[str] = []
+    if o["errors"] or o["loop_exceptions"]:
+        bad.append(f"errors {o['errors']} {o['loop_exceptions']}")
+    # every event sent to the run is eventually processed by it: consumed by the step exactly once, result has both
+    calls = [c for c in o["workflow"].calls if isinstance(c, tuple)]
+    want = [("on_ext", p) for _a, p in sends]
+    if sorted(calls) != sorted(want):
+        bad.append(f"events consumed {calls}, sent {want}")
+    first, second = (sends[0][1], sends[1][1]) if sends[0][0] <= sends[1][0] else (sends[1][1], sends[0][1])
+    ok_results = {first * 100 + second} | ({second * 100 + first} if sends[0][0] == sends[1][0] else set())
+    if o["status"] != "completed" or o["result"] not in ok_results:
+        bad.append(f"final {o['status']}/{o['result']} not completed/{sorted(ok_results)}")
+    # at no time two live control loops of the run
     if o["overlap"] or o["live_at_end"] != 0:
-        return False
-    for p in o["pre_send"]:
-        if p["live"] > 1:
-            return False
-    # a release (abort of the control loop) happened only in a quiescent state
+        bad.append(f"two live control loops (overlap={o['overlap']}, live at end={o['live_at_end']})")
+    for s in o["samples"] + o["pre_send"] + o["post_send"]:
+        if s["live"] > 1:
+            bad.append(f"t={s['at']}: {s['live']} live control loops")
+    # released only while it has no queued, running or scheduled work
     for ab in o["aborts"]:
-        if not abort_state_is_quiescent(ab):
-            return False
-    return not o["errors"]
+        if ab["was_running"] and not abort_state_is_quiescent(ab):
+            bad.append(f"t={ab['at']}: released with mailbox={ab['mailbox']} workers={ab['workers_running']} "
+                       f"timer={ab['wakeup_pending']} state not idle")
+    return bad
 
 
-@obligation(quick=300, thorough=900,
-            partitions_quick=[f"s1 == {a}" for a in range(0, 5)],
-            partitions_thorough=[f"T == {t} and s1 == {a}" for t in range(1, 4) for a in range(0, 7)],
-            what="in-process stack: two external events at symbolic instants around the idle timeout: both are processed "
-                 "(tick log + result), never two live control loops, every release happened in a quiescent state",
-            bounds={"idle_timeout T": "1..TMAXI", "send instants": "0..SMAX", "events": 2})
-def ob_inproc_two_sends(T: int, s1: int, s2: int) -> bool:
+def _debug(tag: str, bad: List[str]) -> None:
+    if bad and os.environ.get("VERIF_DEBUG"):
+        import sys
+
+        sys.stderr.write(f"[{tag}] " + "\n    ".join(bad) + "\n")
+
+
+@obligation(quick=240, thorough=880,
+            partitions_quick=[f"w == {w} and early == {e} and T == {t}" for w in (0, 1) for e in (True, False)
+                              for t in (1, 2)],
+            partitions_thorough=[f"w == {w} and early == {e} and T == {t}" for w in (0, 1, 2) for e in (True, False)
+                                 for t in (1, 2, 3)],
+            what="in-process stack: two external senders at independent symbolic instants around the idle timeout, step "
+                 "duration w: both events are consumed exactly once and reach the result, never two live control loops, "
+                 "every release (abort of a live loop) happened with empty mailbox, no worker, empty timer heap, idle "
+                 "broker state",
+            bounds={"idle_timeout T": "1..TMAXI", "send instants a1,a2": "0..SMAX", "step duration w": "0..WMAX",
+                    "events": 2, "tie order": "both"})
+def ob_inproc_two_sends(T: int, a1: int, a2: int, w: int, early: bool) -> bool:
     """
-    pre: 1 <= T <= TMAXI and 0 <= s1 <= SMAX and 0 <= s2 <= SMAX
+    pre: 1 <= T <= TMAXI and 0 <= a1 <= SMAX and 0 <= a2 <= SMAX and 0 <= w <= WMAX
     post: _
     """
     T = concrete(T, 1, TMAXI)
-    s1 = concrete(s1, 0, SMAX)
-    s2 = concrete(s2, 0, SMAX)
-    o = run_inproc(T, [(s1, 10), (s2, 7)], _counter_workflow(2), lambda n: ExtEv(n=n))
-    return _safe(o, [10, 7])
+    a1 = concrete(a1, 0, SMAX)
+    a2 = concrete(a2, 0, SMAX)
+    w = concrete(w, 0, WMAX)
+    early = bool(early)
+    sends = [(a1, P1), (a2, P2)]
+    o = run_stack("inproc", T, sends, lambda: WorkWF(w=w, timeout=None), _mk_event, early=early,
+                  probe_to=max(a1, a2) + w + 1, settle=T + 1)
+    bad = _why_inproc(o, sends)
+    _debug(f"two_sends T={T} a1={a1} a2={a2} w={w} early={early}", bad)
+    return not bad
+
+
+XMAX = B(3, 4)
+ZMAX = 2
+
+
+@obligation(quick=240, thorough=600,
+            partitions_quick=[f"kind == {k} and T == {t}" for k in (0, 1) for t in (1, 2)],
+            partitions_thorough=[f"kind == {k} and T == {t} and z == {z}" for k in (0, 1) for t in (1, 2, 3)
+                                 for z in (0, 1, 2) if not (k == 1 and z)],
+            what="in-process stack, work that exists only in the control loop's timer heap (kind 0: a wait_for_event "
+                 "timeout of x s after which the step works z s more; kind 1: a retry waiting out a delay of x s): no "
+                 "release (abort of the live loop) happens while a timer is pending or a worker is running, never two "
+                 "live control loops",
+            bounds={"idle_timeout T": "1..TMAXI", "timer x": "1..XMAX", "post-timeout work z": "0..ZMAX",
+                    "send instant a": "0..SMAX"})
+def ob_inproc_scheduled_work(kind: int, T: int, x: int, z: int, a: int) -> bool:
+    """
+    pre: 0 <= kind <= 1 and 1 <= T <= TMAXI and 1 <= x <= XMAX and 0 <= z <= ZMAX and 0 <= a <= SMAX
+    pre: kind == 0 or z == 0
+    post: _
+    """
+    kind = concrete(kind, 0, 1)
+    T = concrete(T, 1, TMAXI)
+    x = concrete(x, 1, XMAX)
+    z = concrete(z, 0, ZMAX)
+    a = concrete(a, 0, SMAX)
+    _POLICY.delay = x
+    o = run_stack("inproc", T, [(a, P1)], lambda: TimerWF(kind=kind, x=x, z=z, timeout=None), _mk_event, early=True,
+                  probe_to=0, settle=0, horizon=XMAX + ZMAX + 2)
+    bad: List[str] = []
+    for ab in o["aborts"]:
+        if ab["was_running"] and not abort_state_is_quiescent(ab):
+            bad.append(f"t={ab['at']}: released with mailbox={ab['mailbox']} workers={ab['workers_running']} "
+                       f"timer pending={ab['wakeup_pending']}")
+    if o["overlap"]:
+        bad.append("two live control loops")
+    _debug(f"scheduled kind={kind} T={T} x={x} z={z} a={a}", bad)
+    return not bad
+
+
+# ------------------------------------------------------------------------------------------------ lifecycle lock
+ST = [None, "active", "releasing", "released"]  # row states; None = no row
+OPS = ["create", "begin_release", "complete_release", "try_begin_resume(None)", "try_begin_resume(ct)"]
+CT = 1  # crash_timeout_seconds used by op 4: a 'releasing' row older than 1 s is a crashed releaser
+# script alphabet: 0 create, 1 begin_release, 2 complete_release, 3 try_begin_resume(crash_timeout=CT), 4 "2 s pass"
+SCRIPT_TO_OP = [0, 1, 2, 4, None]
+
+
+class _Clock:
+    def __init__(self) -> None:
+        self.t = 0
+
+    def time(self) -> float:
+        return self.t
+
+
+def _with_lock(body: Any) -> Any:
+    """Run ``body(lock, db_path, clock)`` with a fresh lifecycle DB and the lock module's clock patched."""
+    from vlib.h_stores import TmpDir
+
+    clock = _Clock()
+    saved = lc.datetime
+    lc.datetime = h_idle.make_fake_datetime(clock)
+    try:
+        with TmpDir() as d:
+            db = os.path.join(d, "lc.sqlite")
+            h_idle.make_lifecycle_db(db)
+            return body(lc.SqliteRunLifecycleLock(db_path=db), db, clock)
+    finally:
+        lc.datetime = saved
+
+
+def _seed_row(db: str, state: Optional[str], updated_at: int) -> None:
+    import sqlite3
+
+    if state is None:
+        return
+    conn = sqlite3.connect(db)
+    try:
+        conn.execute("INSERT INTO run_lifecycle (run_id, state, updated_at) VALUES (?, ?, ?)",
+                     ("r", state, h_idle._real_datetime_at(updated_at).isoformat()))
+        conn.commit()
+    finally:
+        conn.close()
+
+
+def _row(db: str) -> Any:
+    import datetime as _dt
+    import sqlite3
+
+    conn = sqlite3.connect(db)
+    try:
+        r = conn.execute("SELECT state, updated_at FROM run_lifecycle WHERE run_id = 'r'").fetchone()
+    finally:
+        conn.close()
+    if r is None:
+        return (None, None)
+    return (str(r[0]), (_dt.datetime.fromisoformat(r[1]) - h_idle.EPOCH).total_seconds())
+
+
+def _apply(lock: Any, op: int) -> Any:
+    """one REAL lock operation (the lock methods never suspend: sqlite is synchronous, the KeyedLock is free)"""
+    if op == 0:
+        return vlib.boot.drive(lock.create("r"))
+    if op == 1:
+        return vlib.boot.drive(lock.begin_release("r"))
+    if op == 2:
+        return vlib.boot.drive(lock.complete_release("r"))
+    if op == 3:
+        r = vlib.boot.drive(lock.try_begin_resume("r"))
+    else:
+        r = vlib.boot.drive(lock.try_begin_resume("r", crash_timeout_seconds=CT))
+    return None if r is None else r.value
+
+
+def _ref(state: Optional[str], upd: Any, now: int, op: int) -> Any:
+    """reference automaton from the RunLifecycleLock docstrings: (returned, state', updated_at')"""
+    if op == 0:
+        return (None, "active", now)
+    if op == 1:
+        return (True, "releasing", now) if state == "active" else (False, state, upd)
+    if op == 2:
+        return (None, "released", now) if state == "releasing" else (None, state, upd)
+    if state is None or state == "active":
+        return (None, state, upd)
+    if state == "released" or (op == 4 and state == "releasing" and now - upd > CT):
+        return ("released", "active", now)
+    return ("releasing", state, upd)
+
+
+@obligation(quick=120, thorough=300,
+            what="lifecycle lock, inductive step: from EVERY row state (absent / active / releasing / released, any age) "
+                 "each operation returns what the documented automaton returns and leaves the row in its state "
+                 "(active->releasing->released->active; releasing->active only by a crash timeout that has expired; "
+                 "begin_release is a compare-and-set on 'active'; an absent row is never created except by create)",
+            bounds={"row state": 4, "row age": "0..3 s", "operation": 5, "crash_timeout": "None / 1 s"})
+def ob_lock_step(s0: int, age: int, op: int) -> bool:
+    """
+    pre: 0 <= s0 <= 3 and 0 <= age <= 3 and 0 <= op <= 4
+    post: _
+    """
+    s0 = concrete(s0, 0, 3)
+    age = concrete(age, 0, 3)
+    op = concrete(op, 0, 4)
+
+    def body(lock: Any, db: str, clock: _Clock) -> bool:
+        now = 5
+        clock.t = now
+        _seed_row(db, ST[s0], now - age)
+        upd0 = None if ST[s0] is None else now - age
+        got = _apply(lock, op)
+        want, st1, upd1 = _ref(ST[s0], upd0, now, op)
+        return got == want and _row(db) == (st1, upd1)
+
+    return _with_lock(body)
+
+
+NOPS = B(3, 5)
+
+
+def _script_ok(s0: int, age: int, script: List[int]) -> bool:
+    def body(lock: Any, db: str, clock: _Clock) -> bool:
+        clock.t = 5
+        _seed_row(db, ST[s0], 5 - age)
+        state, upd = _row(db)
+        released_since_owner = 0   # successful begin_release calls since the row last became active
+        for sop in script:
+            op = SCRIPT_TO_OP[sop]
+            if op is None:
+                clock.t += 2
+                continue
+            before = state
+            got = _apply(lock, op)
+            state, upd1 = _row(db)
+            # transitions follow active -> releasing -> released -> active (+ create; + expired crash timeout)
+            legal = (state == before) or (op == 0 and state == "active") \
+                or (before, state) in (("active", "releasing"), ("releasing", "released"), ("released", "active")) \
+                or (before == "releasing" and state == "active" and op == 4 and clock.t - upd > CT)
+            if not legal:
+                return False
+            upd = upd1
+            if op == 1:
+                # begin_release succeeds only on an active row, hence at most once per activation
+                if got is not (before == "active"):
+                    return False
+                if got:
+                    released_since_owner += 1
+                    if released_since_owner > 1:
+                        return False
+            if state == "active" and before != "active":
+                released_since_owner = 0
+            if op == 4:
+                # ownership ("released") is handed out exactly when the row leaves released / expired releasing, so
+                # the very next resume attempt cannot get it again; "send normally" only for an absent / active row
+                if (got == "released") != (before in ("released", "releasing") and state == "active"):
+                    return False
+                if got is None and before not in (None, "active"):
+                    return False
+                if got == "releasing" and not (before == "releasing" and state == "releasing"):
+                    return False
+        return True
+
+    return _with_lock(body)
+
+
+@obligation(quick=240, thorough=880,
+            partitions_quick=[f"s0 == {s}" for s in range(4)],
+            partitions_thorough=[f"s0 == {s} and o1 == {o}" for s in range(4) for o in range(5)],
+            what="lifecycle lock, symbolic operation scripts (create / begin_release / complete_release / "
+                 "try_begin_resume with a 1 s crash timeout / 2 s pass) from a symbolic row state: every observed "
+                 "transition is legal, begin_release succeeds iff the row is active and at most once per activation, "
+                 "ownership is handed to exactly one of consecutive resumers",
+            bounds={"script length": "NOPS", "row state": 4, "row age": "0 s (releasing rows also 2 s)",
+                    "operations": 5})
+def ob_lock_script(s0: int, old: bool, o1: int, o2: int, o3: int, o4: int, o5: int) -> bool:
+    """
+    pre: 0 <= s0 <= 3 and 0 <= o1 <= 4 and 0 <= o2 <= 4 and 0 <= o3 <= 4 and 0 <= o4 <= 4 and 0 <= o5 <= 4
+    pre: (not old or s0 == 2) and (NOPS == 5 or (o4 == 4 and o5 == 4))
+    post: _
+    """
+    s0 = concrete(s0, 0, 3)
+    script = [concrete(o, 0, 4) for o in (o1, o2, o3, o4, o5)]
+    return _script_ok(s0, 2 if old else 0, script[:NOPS])
+
+
+RMAX = B(3, 4)
+
+
+@obligation(quick=240, thorough=880,
+            partitions_quick=[f"crash == {c} and r == {r}" for c in (True, False) for r in range(0, 3)],
+            partitions_thorough=[f"crash == {c} and r == {r} and u1 == {u}" for c in (True, False) for r in range(0, 3)
+                                 for u in range(0, 5)],
+            what="lifecycle lock under concurrency (real tasks on MiniLoop): a releaser (begin_release at r, "
+                 "complete_release c seconds later unless it crashes) and two resumers that start at u1,u2 and poll every "
+                 "0.5 s like the DBOS sender: at most ONE resumer takes ownership, a resumer is told 'send normally' "
+                 "only while the row is active, and (crash or not) every resumer finishes once the release completed or "
+                 "the crash timeout (1 s) expired",
+            bounds={"release instant r": "0..2", "completion delay c": "0..2", "resumer instants": "0..RMAX",
+                    "crash": "both"})
+def ob_lock_concurrent(r: int, c: int, u1: int, u2: int, crash: bool) -> bool:
+    """
+    pre: 0 <= r <= 2 and 0 <= c <= 2 and 0 <= u1 <= RMAX and 0 <= u2 <= RMAX
+    post: _
+    """
+    from vlib.miniloop import MiniLoop
+
+    r = concrete(r, 0, 2)
+    c = concrete(c, 0, 2)
+    u1 = concrete(u1, 0, RMAX)
+    u2 = concrete(u2, 0, RMAX)
+    crash = bool(crash)
+    loop = MiniLoop()
+
+    def body(lock: Any, db: str, clock: _Clock) -> bool:
+        clock.time = loop.time  # type: ignore[method-assign]
+        out: Dict[str, Any] = {"owners": 0, "normal_bad": 0, "done": 0, "began": None}
+
+        async def releaser() -> None:
+            await asyncio.sleep(r)
+            out["began"] = await lock.begin_release("r")
+            if out["began"] and not crash:
+                await asyncio.sleep(c)
+                await lock.complete_release("r")
+
+        async def resumer(u: int) -> None:
+            await asyncio.sleep(u)
+            for _ in range(12):
+                res = await lock.try_begin_resume("r", crash_timeout_seconds=CT)
+                if res is None:
+                    if _row(db)[0] != "active":
+                        out["normal_bad"] += 1
+                    out["done"] += 1
+                    return
+                if res == lc.RunLifecycleState.released:
+                    out["owners"] += 1
+                    out["done"] += 1
+                    return
+                await asyncio.sleep(0.5)
+
+        async def main() -> None:
+            await lock.create("r")
+            ts = [asyncio.ensure_future(x) for x in (releaser(), resumer(u1), resumer(u2))]
+            for t in ts:
+                await t
+
+        loop.run_until_complete(main())
+        if out["began"] is not True:
+            return False
+        return out["owners"] <= 1 and out["normal_bad"] == 0 and out["done"] == 2 and \
+            (out["owners"] == 1) == (max(u1, u2) >= r)
+
+    return _with_lock(body)
+
+
+# ------------------------------------------------------------------------------------------------ two DBOS "replicas"
+class CollectTwo(Workflow):
+    def __init__(self, **kw: Any) -> None:
+        super().__init__(**kw)
+        self.calls: List[Any] = []
+
+    @step
+    async def begin(self, ctx: Context, ev: StartEvent) -> None:
+        self.calls.append("begin")
+        return None
+
+    @step(num_workers=1)
+    async def on_ext(self, ctx: Context, ev: ExtEv) -> Optional[StopEvent]:
+        self.calls.append(("on_ext", ev.n))
+        got = ctx.collect_events(ev, [ExtEv, ExtEv])
+        if got is None:
+            return None
+        return StopEvent(result=sorted(e.n for e in got))
+
+
+CRASH_TIMEOUT = float(dbos_ir.CRASH_TIMEOUT_SECONDS)
+
+
+def _two_replicas(T: int, crash: bool, u1: int, u2: int) -> List[str]:
+    """Replica A starts the run and releases it after T s idle (crash=True: the process of A dies right after its
+    begin_release succeeded: its control loop and every background task stop, complete_release is never written).
+    Two senders reach replica B at T+u1 and T+u2 (after A's timer of the same instant).  Returns the violations."""
+    import llama_agents.server._service as svc
+    import workflows.runtime.types.step_function as sf
+    from llama_agents.server._store.abstract_workflow_store import HandlerQuery
+    from llama_agents.server._store.memory_workflow_store import MemoryWorkflowStore
+    from vlib.h_stores import TmpDir
+    from vlib.miniloop import MiniLoop
+
+    loop = MiniLoop()
+    bad: List[str] = []
+    obs: Dict[str, Any] = {"max_live": 0, "errors": []}
+
+    with TmpDir() as d:
+        db = os.path.join(d, "dbos.sqlite")
+        h_idle.make_lifecycle_db(db)
+
+        async def main() -> None:
+            store = MemoryWorkflowStore()
+            holder: Dict[str, Any] = {}
+
+            class DyingLock:
+                """fault injection only: forwards to the real lock; if `crash`, process A dies right after its
+                begin_release returned True"""
+
+                def __init__(self, real: Any) -> None:
+                    self._real = real
+
+                async def create(self, run_id: str) -> None:
+                    await self._real.create(run_id)
+
+                async def begin_release(self, run_id: str) -> bool:
+                    ok = await self._real.begin_release(run_id)
+                    if ok and crash:
+                        a = holder["A"]
+                        for t in a.basic.loops.get(run_id, []):
+                            t.cancel()
+                        for t in list(a.idle._background_tasks):
+                            if t is not asyncio.current_task():
+                                t.cancel()
+                        raise asyncio.CancelledError()
+                    return ok
+
+                async def complete_release(self, run_id: str) -> None:
+                    await self._real.complete_release(run_id)
+
+                async def try_begin_resume(self, run_id: str, crash_timeout_seconds: Any = None) -> Any:
+                    return await self._real.try_begin_resume(run_id, crash_timeout_seconds=crash_timeout_seconds)
+
+            A = h_idle.DbosStack(T, db, store=store, wrap_lock=DyingLock)
+            Bst = h_idle.DbosStack(10 ** 6, db, store=store)
+            holder["A"] = A
+            wfa, wfb = CollectTwo(timeout=None), CollectTwo(timeout=None)
+            A.add_workflow("w", wfa)
+            Bst.add_workflow("w", wfb)
+            await A.service.start()
+            await Bst.service.start()
+            await A.service.start_workflow(wfa, "h1", None)
+            await A.real_lock.create("run1")
+
+            def live() -> int:
+                return A.basic.live_loops("run1") + Bst.basic.live_loops("run1")
+
+            async def watch() -> None:
+                # both replicas' control loops, every quarter second until everything is over
+                for _ in range(int((T + RMAX2 + 3 + (CRASH_TIMEOUT if crash else 0)) * 4)):
+                    obs["max_live"] = max(obs["max_live"], live())
+                    await asyncio.sleep(0.25)
+
+            async def sender(i: int, at: float, payload: int) -> None:
+                await asyncio.sleep(at - 0.5)
+                await asyncio.sleep(0.5)           # registered late: A's release timer of the same instant goes first
+                try:
+                    await Bst.service.send_event("h1", _mk_event(payload))
+                except Exception as e:  # noqa: BLE001
+                    obs["errors"].append(f"send {i}: {type(e).__name__}: {e}")
+
+            ts = [asyncio.ensure_future(watch()), asyncio.ensure_future(sender(0, T + u1, P1)),
+                  asyncio.ensure_future(sender(1, T + u2, P2))]
+            for t in ts:
+                await t
+            h = (await store.query(HandlerQuery(handler_id_in=["h1"])))[0]
+            obs["status"], obs["result"] = h.status, (h.result.result if h.result is not None else None)
+            obs["row"] = h_idle.lifecycle_row(db, "run1")
+            obs["calls"] = [c for c in wfa.calls + wfb.calls if isinstance(c, tuple)]
+            obs["resumes_on_B"] = len(Bst.basic.loops.get("run1", []))
+            obs["loops_on_A"] = len(A.basic.loops.get("run1", []))
+            obs["overlap"] = A.basic.overlap or Bst.basic.overlap
+            obs["loop_exceptions"] = [str(c.get("exception") or c.get("message")) for c in loop._exc]
+
+        clocks = h_idle.dbos_clock_modules()
+        saved = (svc.nanoid, sf.uuid, dbos_ir.DBOS)
+        svc.nanoid, sf.uuid, dbos_ir.DBOS = h_idle._FixedIds("run"), h_idle._FixedIds("span"), h_idle.DBOSUnavailable
+        try:
+            with h_idle.VirtualClocks(loop, time_mods=clocks["time"], datetime_mods=clocks["datetime"]):
+                loop.run_until_complete(main())
+        finally:
+            svc.nanoid, sf.uuid, dbos_ir.DBOS = saved
+
+    if obs["errors"] or obs["loop_exceptions"]:
+        bad.append(f"errors {obs['errors']} {obs['loop_exceptions']}")
+    if sorted(obs["calls"]) != [("on_ext", P2), ("on_ext", P1)]:
+        bad.append(f"events consumed {obs['calls']}")
+    if obs["status"] != "completed" or obs["result"] != sorted([P1, P2]):
+        bad.append(f"final {obs['status']}/{obs['result']}")
+    if obs["max_live"] > 1 or obs["overlap"]:
+        bad.append(f"{obs['max_live']} live control loops at one time")
+    if obs["resumes_on_B"] != 1 or obs["loops_on_A"] != 1:
+        bad.append(f"{obs['resumes_on_B']} resumes on B, {obs['loops_on_A']} starts on A (one resumer must own the run)")
+    if obs["row"] != "active":
+        bad.append(f"lifecycle row ends {obs['row']!r}")
+    return bad
+
+
+RMAX2 = B(1, 2)
+
+
+@obligation(quick=240, thorough=880,
+            partitions_quick=["crash", "not crash"],
+            partitions_thorough=[f"crash == {c} and T == {t}" for c in (True, False) for t in (1, 2, 3)],
+            what="DBOS stack, two replicas sharing the lifecycle table and the store (real decorators + real sqlite lock, "
+                 "stub inner runtimes): A releases the idle run after T s (optionally A dies right after begin_release); "
+                 "two senders reach B u1,u2 s later: exactly one of them takes ownership and resumes the run on B (after "
+                 "the release completed, or after the 120 s crash timeout), both events are consumed exactly once, the "
+                 "run completes, never two live control loops across A and B",
+            bounds={"idle_timeout T": "1..TMAXI", "sender delays u1,u2 after the release instant": "0..RMAX2",
+                    "releaser crash": "both"})
+def ob_dbos_two_replicas(T: int, u1: int, u2: int, crash: bool) -> bool:
+    """
+    pre: not DBOS_RUNTIME_TOUCHES_LIFECYCLE
+    pre: 1 <= T <= TMAXI and 0 <= u1 <= RMAX2 and 0 <= u2 <= RMAX2
+    post: _
+    """
+    T = concrete(T, 1, TMAXI)
+    u1 = concrete(u1, 0, RMAX2)
+    u2 = concrete(u2, 0, RMAX2)
+    crash = bool(crash)
+    bad = _two_replicas(T, crash, u1, u2)
+    _debug(f"two_replicas T={T} u1={u1} u2={u2} crash={crash}", bad)
+    return not bad
